@@ -127,9 +127,9 @@ def real_lines(cfg, hist, dump_every):
             pt.loc_len[0] = 0
             try:
                 if cfg['levy'] != 'none':
-                    W, U = bm(ta, tb, return_U=True)
+                    W, U, _ = ob.query(bm, ta, tb, cfg)
                 else:
-                    W, U = bm(ta, tb), torch.zeros(())
+                    W, U = ob.query(bm, ta, tb, cfg)[0], torch.zeros(())
             except RuntimeError as e:
                 lines.append("error")
                 continue
